@@ -542,8 +542,13 @@ pub fn run_c04(ctx: &Ctx) -> ! {
                 };
                 let out0 = run_sync_env(&p0.env, &c, &[], None, &base_env("log", None, &logp));
                 runs += 1;
-                if out0.code != Some(0) || c04_oracle(&c, &p0, &out0).is_some() {
-                    machinery_error(format!("C04 I/O-fault part: the fault-free {dir} run under the logger is not clean: exit {:?} {}", out0.code, out0.stderr.lines().last().unwrap_or("")));
+                if let Some((kind, m, path)) = c04_oracle(&c, &p0, &out0) {
+                    // the fault-free run is already wrong: report that, the enumeration has no baseline
+                    vs.push(Violation::new(&kind, format!("[{} (fault-free run under the logger)] exit {:?}: {m}", cfg_name(&c), out0.code), json!({"config": cfg_name(&c), "path": path, "io_fault": {"k": 0, "errno": errno}})).with("direction", json!(dir)));
+                    return (runs, vs);
+                }
+                if out0.code != Some(0) {
+                    machinery_error(format!("C04 I/O-fault part: the fault-free {dir} run under the logger failed: exit {:?} {}", out0.code, out0.stderr.lines().last().unwrap_or("")));
                 }
                 let n = std::fs::read_to_string(&logp).map(|t| t.lines().count() as u64).unwrap_or(0);
                 if n < 5 {
